@@ -19,7 +19,7 @@ for id in "$@"; do
   for c in $checks; do
     caught=""
     for s in 0 1 2; do
-      ( cd /verif && VERIF_SEED=$s VERIF_SIDE=$TAG PX_PAVEXC_BIN=$WT/target/debug/pavexc PX_REPO_ROOT=$WT /verif/.work/target/debug/pxe2e $c --tier quick > /verif/.work/matrix-$id-$c-$s.log 2>&1 ); rc=$?
+      ( cd /verif && VERIF_SEED=$s VERIF_SIDE=$TAG PX_NO_SHRINK=1 PX_PAVEXC_BIN=$WT/target/debug/pavexc PX_REPO_ROOT=$WT /verif/.work/target/debug/pxe2e $c --tier quick > /verif/.work/matrix-$id-$c-$s.log 2>&1 ); rc=$?
       if [ $rc -eq 1 ]; then caught="seed$s"; break; fi
       if [ $rc -ne 0 ]; then caught="exit$rc@seed$s"; break; fi
     done
